@@ -10,6 +10,8 @@ import (
 	kubefake "k8s.io/client-go/kubernetes/fake"
 	"k8s.io/client-go/tools/cache"
 	"tkestack.io/galaxy/pkg/policy"
+	"tkestack.io/galaxy/pkg/utils/ipset"
+	utiliptables "tkestack.io/galaxy/pkg/utils/iptables"
 	"verif/harness/fakes"
 )
 
@@ -59,6 +61,11 @@ type env struct {
 	failKind             string // "" | ipset | iptables
 	failAt               int
 	failedOp             string // the operation that was made to fail, once
+
+	// execMode: "" - the manager gets the Interface-level fakes; "ipset" / "iptables" - it gets galaxy's exec-backed
+	// runner (ipset.New / iptables.New) over a fake exec that interprets the command lines against the same stores
+	execMode string
+	x        *fakes.Exec
 }
 
 // The errors an exec-backed handle returns when the tool itself fails (nothing reaches the kernel).
@@ -67,9 +74,12 @@ const (
 	iptablesToolError = "exit status 4 (Another app is currently holding the xtables lock. Perhaps you want to use the -w option?)"
 )
 
-func newEnv(w *world) *env {
-	e := &env{sets: fakes.NewIPSet(), w: w}
+func newEnv(w *world) *env { return newEnvMode(w, "") }
+
+func newEnvMode(w *world, execMode string) *env {
+	e := &env{sets: fakes.NewIPSet(), w: w, execMode: execMode}
 	e.ipt = fakes.NewIPTables(e.sets)
+	e.x = fakes.NewExec(e.sets, e.ipt)
 	e.sets.FailHook = func(op string) error {
 		e.ipsetCalls++
 		if e.failKind == "ipset" && e.failedOp == "" && e.ipsetCalls == e.failAt {
@@ -97,7 +107,30 @@ func (e *env) arm(kind string, k int) {
 
 // restart replaces the manager by a new instance over the same kernel state (a daemon restart).
 func (e *env) restart() {
-	e.pm = policy.VerifNew(sharedClient, e.sets, e.ipt, hostName, e.w.pods, e.w.nss, e.w.pols)
+	var sets ipset.Interface = e.sets
+	var ipt utiliptables.Interface = e.ipt
+	switch e.execMode {
+	case "ipset":
+		sets = ipset.New(e.x)
+	case "iptables":
+		ipt = utiliptables.New(e.x, utiliptables.ProtocolIpv4)
+	}
+	e.pm = policy.VerifNew(sharedClient, sets, ipt, hostName, e.w.pods, e.w.nss, e.w.pols)
+}
+
+// execReport adds the interpreter's counters; it returns the first command line the interpreter did not understand.
+func (e *env) execReport(counters map[string]int64) string {
+	if e.execMode == "" {
+		return ""
+	}
+	counters["cases_in_exec_mode:"+e.execMode]++
+	for v, n := range e.x.Verbs() {
+		counters["exec_commands:"+v] += int64(n)
+	}
+	if u := e.x.Unknown(); len(u) > 0 {
+		return u[0]
+	}
+	return ""
 }
 
 // panicInfo describes a recovered panic of the code under test.
